@@ -40,6 +40,10 @@ CHECKS['C14'] = dict(
    text="Deductive with the microversion symbolic: for every route x method the real decorator chain lets a request through exactly from the documented version and answers the documented 404/405 below it, the served overload is the one whose window holds the version, windows tile [first, 1.39]; the schema object selected, the keyword flags handed to the object layer, last-modified/cache-control, version-dependent response keys, 201 vs 200+body and the error `code` are proved to switch exactly at the documented version (feature table transcribed from rest_api_version_history.rst). Always-on bounded stand-in: 53 feature probes on the real stack around each introduction version (thorough: all 40 versions) plus version negotiation.",
    note="A-lib: microversion_parse (406, header parsing) trusted; gates inside the string-level query parsers and inside the candidate serialiser loops are covered by the probes only.",
    design="4/C14")
+CHECKS['C02'] = dict(
+   text="Deductive, per function, unbounded in list lengths: (1) the real _consolidate_allocation_requests (+ copy_arr_if_needed) is proved to return one entry per (provider, class) whose amount is the ghost sum of the input amounts with that key, every input key placed, the anchor kept, and -- frame -- no AllocationRequestResource that existed before the call modified (two nested inductive invariants with ghost sums and first-occurrence functions); (2) exceeds_capacity is proved to return True iff some resource has used + amount > capacity or amount > max_unit of its summary entry; (3) _build_provider_summaries is proved to record capacity int((total - reserved) * allocation_ratio), used (NULL -> 0), max_unit, class name and the provider's uuid / parent / root for every usage row; (4) the claim lemma (z3, with witness-style divisibility lemmas): amounts admitted by the real _capacity_check_clause object (translated term by term), added up and not rejected by exceeds_capacity, satisfy the acceptance condition of _check_capacity_exceeded (its contract, proved against its body by C01). Always-on bounded stand-in: claim every returned candidate on the real stack and compare every summary with the stored state.",
+   note="A-sql: the rows returned by get_usages_by_provider_trees / _provider_ids_from_root_ids / the per-group candidate SELECTs are assumed to be the stored ones (bounded stand-in only); mappings, 'one provider per suffixed group' and the establishment of consolidate's precondition (multi_group_rcs) in _get_by_requests / _merge_candidates are covered by the bounded stand-in only; JSON serialisation of the candidates by C14's response-key obligations and the stand-in.",
+   design="4/C02")
 CHECKS['C20'] = dict(
    text="Deductive, unbounded in the lists: the real RequestWideSearchContext.limit_results is proved against the property's postcondition (count == min(N, M); every returned request is one of the inputs, pairwise distinct; without randomisation the result is the prefix of the input and random is never called; without an effective limit the result is a permutation; every provider named by a kept request keeps a summary; summaries come from the input) with three inductive loop invariants; AllocationCandidates._get_by_requests is proved against the callee contracts to apply limit_results to exactly EXCL(merged) -- the complete filtered candidate list -- so the limited answer is selected from the unlimited one. Always-on bounded stand-in: real stack, 4 topologies x 8 queries x limits 1..M+1 x randomisation off/on.",
    note="A-lib: random.sample / random.shuffle by their documented behaviour; exclude_nested_providers and _merge_candidates are uninterpreted list functions here (their own behaviour belongs to C02/C03); 'identical request on unchanged state returns the identical list' additionally rests on the determinism of the SQL result order (A-order), which only the bounded stand-in exercises.",
